@@ -408,3 +408,26 @@ if __name__ == '__main__':
     r = regenerate()
     for f, rep in r.items():
         print(f, rep['ok'], rep['errors'], {k: v for k, v in rep['kernels'].items()})
+
+
+def stage(ctx, gen_files, theorems):
+    """Tie A stage of a check: re-trace, build the property's proofs over the fresh kernels, validate the printer."""
+    rep = regenerate(gen_files, seed=ctx.seed)
+    failed = [f for f, r in rep.items() if not r['ok']]
+    for f in failed:
+        ctx.broken.append('trace translator failed closed on %s: %s' % (f, '; '.join(rep[f]['errors'])[:300]))
+    ctx.obligations += len(gen_files)
+    ctx.discharged += len(gen_files) - len(failed)
+    common.check_obligations(ctx, theorems)
+    if not failed and ctx.notes.get('build_ok'):
+        n, bad = printer_validation(ctx, rep)
+        ctx.obligations += 1
+        if bad:
+            ctx.broken.append('translator printer validation failed for kernels %s' % bad)
+        else:
+            ctx.discharged += 1
+        ctx.notes.setdefault('coverage_extra', {})['translator'] = {
+            'kernels': {f: sorted(r['kernels']) for f, r in rep.items()}, 'printer_cases_exact_Q': n}
+    ctx.assumptions += ['real-number semantics of + - * / sqrt cos sin acos (rounding, round(x, 9) not modelled)',
+                        'trace translator harness/trace.py (validated each run: DAG vs source in floats, printer vs DAG in exact Q with oracle tables)']
+    return rep
